@@ -39,6 +39,7 @@ type c09Params struct {
 	lateCloser     bool
 	discWriteFails int  // socket writes of the client's disconnect responses that may fail (transient error)
 	secondApp      bool // a second application goroutine calls Send 2 ms after the first one in every interval
+	connAllStatus  bool // flat: the first heartbeat fails, the reconnect is refused with every non-zero status code in turn
 	hbWriteFails   int  // socket writes of connection-state requests that may fail: the heartbeat has failed
 }
 
@@ -77,6 +78,13 @@ func c09Run(p c09Params) func() {
 		if p.allStatus {
 			flatStatus = uint8(1 + mc.Choose(255, mc.Free))
 		}
+		connStatus := uint8(0)
+		refuseFirst := false // the very first connect request is refused: the constructor reports the status
+		if p.connAllStatus {
+			flatStatus = uint8(knxnet.ErrConnectionID)
+			connStatus = uint8(1 + mc.Choose(255, mc.Free))
+			refuseFirst = mc.Choose(2, mc.Free) == 1
+		}
 		gw.OnConnReq = func(req *knxnet.ConnReq, s *fakesock.Sent) {
 			accept := func() {
 				if !first && p.connMenu && mc.Choose(2, mc.Free) == 1 {
@@ -90,12 +98,20 @@ func c09Run(p c09Params) func() {
 				connected = true
 				deliver(&knxnet.ConnRes{Channel: cur, Status: 0, Control: knxnet.HostInfo{Protocol: knxnet.UDP4}})
 			}
+			if first && refuseFirst {
+				deliver(&knxnet.ConnRes{Channel: 0, Status: knxnet.ErrCode(connStatus)})
+				return
+			}
 			if first {
 				accept()
 				first = false
 				return
 			}
 			connected = false
+			if p.connAllStatus {
+				deliver(&knxnet.ConnRes{Channel: 0, Status: knxnet.ErrCode(connStatus)})
+				return
+			}
 			c := 0
 			if p.connMenu {
 				c = mc.Choose(5, mc.Fault)
@@ -113,7 +129,7 @@ func c09Run(p c09Params) func() {
 			}
 		}
 		gw.OnConnState = func(req *knxnet.ConnStateReq, s *fakesock.Sent) {
-			if p.allStatus {
+			if p.allStatus || p.connAllStatus {
 				deliver(&knxnet.ConnStateRes{Channel: req.Channel, Status: knxnet.ErrCode(flatStatus)})
 				return
 			}
@@ -233,7 +249,10 @@ func c09Run(p c09Params) func() {
 						break
 					}
 					mc.Sleep(at - mc.Now())
-					switch mc.Choose(6, mc.Fault) {
+					switch mc.Choose(7, mc.Fault) {
+					case 6: // a disconnect response that carries an error status (a gateway that no longer
+						// knows the channel answers like that); the statement makes no exception for it
+						deliver(&knxnet.DiscRes{Channel: cur, Status: uint8(knxnet.ErrConnectionID)})
 					case 5: // unsolicited: another connection's state response, reporting that one as lost
 						deliver(&knxnet.ConnStateRes{Channel: cur + 50, Status: knxnet.ErrConnectionID})
 					case 1:
@@ -850,6 +869,8 @@ func init() {
 	// the two would raise an alarm on a correct client.)
 	e := c09Params{H: 1000, R: 100, T: 300, horizonHB: 2, allStatus: true, noTraffic: true}
 	register("both", &h.Scenario{Name: "C09-all-255-status-codes", Prop: "C09", P: 0, F: 0, D: -1, Run: c09Run(e), Check: c09Oracle(e)})
+	e2 := c09Params{H: 1000, R: 100, T: 300, horizonHB: 2, connAllStatus: true, noTraffic: true}
+	register("both", &h.Scenario{Name: "C09-reconnect-refused-with-all-255-status-codes", Prop: "C09", P: 0, F: 0, D: -1, Run: c09Run(e2), Check: c09Oracle(e2)})
 	f := c09Params{H: 1000, R: 100, T: 300, horizonHB: 5, stateMenu: true, connMenu: true, spont: true}
 	register("thorough", &h.Scenario{Name: "C09-H1000-5epochs-F3", Prop: "C09", P: 0, F: 3, D: -1, Run: c09Run(f), Check: c09Oracle(f)})
 	g := c09Params{H: 1000, R: 100, T: 300, horizonHB: 3, stateMenu: true, connMenu: true, spont: true}
